@@ -224,3 +224,8 @@ package types
 //@   opt reads=heap
 //@ func (ChangeLogSlice).MerkleRootSha   pure trusted
 //@   opt reads=heap
+
+// C07: undo of one change log dispatches through the per-type table (the individual undo functions are not under contract here):
+// assumed to leave the journal, the change logs themselves and the accounts' version counters alone
+//@ func (*ChangeLog).Undo   trusted
+//@   modifies allbut(account.LogProcessor, []*ChangeLog, ChangeLog, []account.revision, account.Account.newestRecords, map[ChangeLogType]uint32, map[common.Address]map[ChangeLogType]uint32)
